@@ -1,1 +1,366 @@
-//! (reference for twofish: to be written)
+//! Twofish, written from B. Schneier, J. Kelsey, D. Whiting, D. Wagner, C. Hall, N. Ferguson,
+//! "Twofish: A 128-Bit Block Cipher" (AES submission, 15 June 1998), section 4:
+//! 4.1 (whitening, the 16-round Feistel network, the function F), 4.2 (the function g), 4.3 (key schedule:
+//! 4.3.1 Me / Mo / S, 4.3.2 the function h, 4.3.3 key-dependent S-boxes, 4.3.4 expanded key words K_j,
+//! 4.3.5 the permutations q0 and q1).  Matrices and 4-bit tables typed from the paper.
+//! All words are little-endian (section 4: "p_0..p_15 ... P_i = sum p_(4i+j) 2^(8j)").
+
+/// 4.2: GF(2^8) for the MDS matrix is GF(2)[x]/v(x), v(x) = x^8 + x^6 + x^5 + x^3 + 1.
+pub const MDS_POLY: u16 = 0x169;
+/// 4.3.1: GF(2^8) for the RS matrix is GF(2)[x]/w(x), w(x) = x^8 + x^6 + x^3 + x^2 + 1.
+pub const RS_POLY: u16 = 0x14d;
+
+/// 4.2: the MDS matrix.
+pub const MDS: [[u8; 4]; 4] = [[0x01, 0xEF, 0x5B, 0x5B], [0x5B, 0xEF, 0xEF, 0x01], [0xEF, 0x5B, 0x01, 0xEF], [0xEF, 0x01, 0xEF, 0x5B]];
+
+/// 4.3.1: the RS matrix.
+pub const RS: [[u8; 8]; 4] = [
+    [0x01, 0xA4, 0x55, 0x87, 0x5A, 0x58, 0xDB, 0x9E],
+    [0xA4, 0x56, 0x82, 0xF3, 0x1E, 0xC6, 0x68, 0xE5],
+    [0x02, 0xA1, 0xFC, 0xC1, 0x47, 0xAE, 0x3D, 0x19],
+    [0xA4, 0x55, 0x87, 0x5A, 0x58, 0xDB, 0x9E, 0x03],
+];
+
+/// 4.3.5: the 4-bit permutations t0..t3 of q0 and of q1.
+pub const QT: [[[u8; 16]; 4]; 2] = [
+    [
+        [0x8, 0x1, 0x7, 0xD, 0x6, 0xF, 0x3, 0x2, 0x0, 0xB, 0x5, 0x9, 0xE, 0xC, 0xA, 0x4],
+        [0xE, 0xC, 0xB, 0x8, 0x1, 0x2, 0x3, 0x5, 0xF, 0x4, 0xA, 0x6, 0x7, 0x0, 0x9, 0xD],
+        [0xB, 0xA, 0x5, 0xE, 0x6, 0xD, 0x9, 0x0, 0xC, 0x8, 0xF, 0x3, 0x2, 0x4, 0x7, 0x1],
+        [0xD, 0x7, 0xF, 0x4, 0x1, 0x2, 0x6, 0xE, 0x9, 0xB, 0x3, 0x0, 0x8, 0x5, 0xC, 0xA],
+    ],
+    [
+        [0x2, 0x8, 0xB, 0xD, 0xF, 0x7, 0x6, 0xE, 0x3, 0x1, 0x9, 0x4, 0x0, 0xA, 0xC, 0x5],
+        [0x1, 0xE, 0x2, 0xB, 0x4, 0xC, 0x3, 0x7, 0x6, 0xD, 0xA, 0x5, 0xF, 0x9, 0x0, 0x8],
+        [0x4, 0xC, 0x7, 0x5, 0x1, 0x6, 0x9, 0xA, 0x0, 0xE, 0xD, 0x8, 0x2, 0xB, 0x3, 0xF],
+        [0xB, 0x9, 0x5, 0x1, 0xC, 0x3, 0xD, 0xE, 0x6, 0x4, 0x7, 0xF, 0x2, 0x0, 0x8, 0xA],
+    ],
+];
+
+/// Product in GF(2)[x]/poly (poly of degree 8 given with its x^8 term): schoolbook carry-less product of the two
+/// polynomials (degree <= 14), then reduction from the top.
+pub const fn gf_mul(a: u8, b: u8, poly: u16) -> u8 {
+    let mut prod: u16 = 0;
+    let mut i = 0;
+    while i < 8 {
+        if (b >> i) & 1 == 1 {
+            prod ^= (a as u16) << i;
+        }
+        i += 1;
+    }
+    let mut d = 14;
+    while d >= 8 {
+        if (prod >> d) & 1 == 1 {
+            prod ^= poly << (d - 8);
+        }
+        d -= 1;
+    }
+    prod as u8
+}
+
+/// 4-bit rotate right by one
+const fn ror4(x: u8) -> u8 { ((x >> 1) | (x << 3)) & 15 }
+
+/// 4.3.5: the fixed 8-bit permutation q_i from its four 4-bit tables.
+pub const fn q_calc(i: usize, x: u8) -> u8 {
+    let a0 = x / 16;
+    let b0 = x % 16;
+    let a1 = a0 ^ b0;
+    let b1 = (a0 ^ ror4(b0) ^ (8 * a0)) % 16;
+    let a2 = QT[i][0][a1 as usize];
+    let b2 = QT[i][1][b1 as usize];
+    let a3 = a2 ^ b2;
+    let b3 = (a2 ^ ror4(b2) ^ (8 * a2)) % 16;
+    let a4 = QT[i][2][a3 as usize];
+    let b4 = QT[i][3][b3 as usize];
+    16 * b4 + a4
+}
+const fn q_tables() -> [[u8; 256]; 2] {
+    let mut t = [[0u8; 256]; 2];
+    let mut i = 0;
+    while i < 2 {
+        let mut x = 0;
+        while x < 256 {
+            t[i][x] = q_calc(i, x as u8);
+            x += 1;
+        }
+        i += 1;
+    }
+    t
+}
+/// q0 and q1 tabulated (computed from `q_calc`).
+pub const Q: [[u8; 256]; 2] = q_tables();
+pub fn q(i: usize, x: u8) -> u8 { Q[i][x as usize] }
+
+/// 4.2: z = MDS . y over GF(2^8)/v(x), Z = sum z_i 2^(8i).
+pub fn mds(y: [u8; 4]) -> u32 {
+    let mut z = [0u8; 4];
+    let mut i = 0;
+    while i < 4 {
+        let mut j = 0;
+        while j < 4 {
+            z[i] ^= gf_mul(MDS[i][j], y[j], MDS_POLY);
+            j += 1;
+        }
+        i += 1;
+    }
+    u32::from_le_bytes(z)
+}
+/// Contribution of one input byte: column `j` of the MDS matrix times `x`.
+pub fn mds_column(x: u8, j: usize) -> u32 {
+    let mut z = [0u8; 4];
+    let mut i = 0;
+    while i < 4 {
+        z[i] = gf_mul(MDS[i][j], x, MDS_POLY);
+        i += 1;
+    }
+    u32::from_le_bytes(z)
+}
+
+/// 4.3.1: (s_i,0 .. s_i,3) = RS . (m_8i .. m_8i+7) over GF(2^8)/w(x).
+pub fn rs(m: &[u8; 8]) -> [u8; 4] {
+    let mut s = [0u8; 4];
+    let mut i = 0;
+    while i < 4 {
+        let mut j = 0;
+        while j < 8 {
+            s[i] ^= gf_mul(RS[i][j], m[j], RS_POLY);
+            j += 1;
+        }
+        i += 1;
+    }
+    s
+}
+
+/// 4.3.2: h(X, L) with L = (L_0 .. L_{k-1}), k in {2,3,4}; `l[i]` holds the four bytes l_i,0 .. l_i,3 of L_i.
+pub fn h(x: u32, l: &[[u8; 4]; 4], k: usize) -> u32 {
+    let mut y = x.to_le_bytes();
+    if k == 4 {
+        y[0] = q(1, y[0]) ^ l[3][0];
+        y[1] = q(0, y[1]) ^ l[3][1];
+        y[2] = q(0, y[2]) ^ l[3][2];
+        y[3] = q(1, y[3]) ^ l[3][3];
+    }
+    if k >= 3 {
+        y[0] = q(1, y[0]) ^ l[2][0];
+        y[1] = q(1, y[1]) ^ l[2][1];
+        y[2] = q(0, y[2]) ^ l[2][2];
+        y[3] = q(0, y[3]) ^ l[2][3];
+    }
+    y[0] = q(1, q(0, q(0, y[0]) ^ l[1][0]) ^ l[0][0]);
+    y[1] = q(0, q(0, q(1, y[1]) ^ l[1][1]) ^ l[0][1]);
+    y[2] = q(1, q(1, q(0, y[2]) ^ l[1][2]) ^ l[0][2]);
+    y[3] = q(0, q(1, q(1, y[3]) ^ l[1][3]) ^ l[0][3]);
+    mds(y)
+}
+
+/// The keyed value: the 40 expanded key words, the S vector in the order used by g (S = (S_{k-1}, .., S_0), 4.3.1), k.
+#[derive(Clone, Copy)]
+pub struct Keyed {
+    pub k: [u32; 40],
+    pub s: [[u8; 4]; 4],
+    pub n: usize,
+}
+
+/// 4.3: key schedule for a key of 8k bytes (the first 8k bytes of `key`), k in {2,3,4}.
+pub fn key_schedule(key: &[u8; 32], k: usize) -> Keyed {
+    // 4.3.1: M_i = the 2k little-endian key words; Me = (M_0, M_2, ..), Mo = (M_1, M_3, ..)
+    let mut me = [[0u8; 4]; 4];
+    let mut mo = [[0u8; 4]; 4];
+    let mut s = [[0u8; 4]; 4];
+    let mut i = 0;
+    while i < 4 {
+        if i < k {
+            let mut j = 0;
+            while j < 4 {
+                me[i][j] = key[8 * i + j];
+                mo[i][j] = key[8 * i + 4 + j];
+                j += 1;
+            }
+            let m8 = [key[8 * i], key[8 * i + 1], key[8 * i + 2], key[8 * i + 3], key[8 * i + 4], key[8 * i + 5], key[8 * i + 6], key[8 * i + 7]];
+            // S = (S_{k-1}, S_{k-2}, .., S_0): "note that S lists the words in reverse order"
+            s[k - 1 - i] = rs(&m8);
+        }
+        i += 1;
+    }
+    // 4.3.4
+    let rho: u32 = 0x0101_0101;
+    let mut kw = [0u32; 40];
+    let mut i = 0u32;
+    while i < 20 {
+        let a = h((2 * i).wrapping_mul(rho), &me, k);
+        let b = h((2 * i + 1).wrapping_mul(rho), &mo, k).rotate_left(8);
+        kw[2 * i as usize] = a.wrapping_add(b);
+        kw[2 * i as usize + 1] = a.wrapping_add(b.wrapping_mul(2)).rotate_left(9);
+        i += 1;
+    }
+    Keyed { k: kw, s, n: k }
+}
+
+/// 4.3.3 / 4.2: g(X) = h(X, S).
+pub fn g(kd: &Keyed, x: u32) -> u32 { h(x, &kd.s, kd.n) }
+
+/// 4.1: F(R0, R1, r).
+pub fn f(kd: &Keyed, r0: u32, r1: u32, r: usize) -> (u32, u32) {
+    let t0 = g(kd, r0);
+    let t1 = g(kd, r1.rotate_left(8));
+    (t0.wrapping_add(t1).wrapping_add(kd.k[2 * r + 8]), t0.wrapping_add(t1.wrapping_mul(2)).wrapping_add(kd.k[2 * r + 9]))
+}
+
+pub fn words_of(b: &[u8; 16]) -> [u32; 4] {
+    let mut w = [0u32; 4];
+    let mut i = 0;
+    while i < 4 {
+        w[i] = u32::from_le_bytes([b[4 * i], b[4 * i + 1], b[4 * i + 2], b[4 * i + 3]]);
+        i += 1;
+    }
+    w
+}
+pub fn bytes_of(w: &[u32; 4]) -> [u8; 16] {
+    let mut b = [0u8; 16];
+    let mut i = 0;
+    while i < 4 {
+        let x = w[i].to_le_bytes();
+        let mut j = 0;
+        while j < 4 {
+            b[4 * i + j] = x[j];
+            j += 1;
+        }
+        i += 1;
+    }
+    b
+}
+
+/// 4.1: input whitening, 16 rounds, undo of the last swap, output whitening.
+pub fn encrypt_with(kd: &Keyed, block: &[u8; 16]) -> [u8; 16] {
+    let p = words_of(block);
+    let mut r = [p[0] ^ kd.k[0], p[1] ^ kd.k[1], p[2] ^ kd.k[2], p[3] ^ kd.k[3]];
+    let mut round = 0;
+    while round < 16 {
+        let (f0, f1) = f(kd, r[0], r[1], round);
+        r = [(r[2] ^ f0).rotate_right(1), r[3].rotate_left(1) ^ f1, r[0], r[1]];
+        round += 1;
+    }
+    // C_i = R_16,(i+2) mod 4 ^ K_{i+4}
+    let c = [r[2] ^ kd.k[4], r[3] ^ kd.k[5], r[0] ^ kd.k[6], r[1] ^ kd.k[7]];
+    bytes_of(&c)
+}
+
+/// The inverse: the same steps undone in reverse order.
+pub fn decrypt_with(kd: &Keyed, block: &[u8; 16]) -> [u8; 16] {
+    let c = words_of(block);
+    // R_16
+    let mut r = [c[2] ^ kd.k[6], c[3] ^ kd.k[7], c[0] ^ kd.k[4], c[1] ^ kd.k[5]];
+    let mut round = 16;
+    while round > 0 {
+        round -= 1;
+        // r = R_{round+1}; R_round,0 = r[2], R_round,1 = r[3]
+        let (f0, f1) = f(kd, r[2], r[3], round);
+        r = [r[2], r[3], r[0].rotate_left(1) ^ f0, (r[1] ^ f1).rotate_right(1)];
+    }
+    let p = [r[0] ^ kd.k[0], r[1] ^ kd.k[1], r[2] ^ kd.k[2], r[3] ^ kd.k[3]];
+    bytes_of(&p)
+}
+
+/// Twofish under the user key `key[..8k]`.
+pub fn encrypt(key: &[u8; 32], k: usize, block: &[u8; 16]) -> [u8; 16] { encrypt_with(&key_schedule(key, k), block) }
+pub fn decrypt(key: &[u8; 32], k: usize, block: &[u8; 16]) -> [u8; 16] { decrypt_with(&key_schedule(key, k), block) }
+
+#[cfg(test)]
+mod tests {
+    use super::*;
+
+    fn hexv(s: &str, out: &mut [u8]) {
+        let b = s.as_bytes();
+        assert_eq!(b.len(), 2 * out.len());
+        let d = |c: u8| (c as char).to_digit(16).unwrap() as u8;
+        for i in 0..out.len() {
+            out[i] = d(b[2 * i]) << 4 | d(b[2 * i + 1]);
+        }
+    }
+    fn kat(key: &str, pt: &str, ct: &str) {
+        let n = key.len() / 2;
+        let mut k = [0x5Au8; 32];
+        hexv(key, &mut k[..n]);
+        let (mut p, mut c) = ([0u8; 16], [0u8; 16]);
+        hexv(pt, &mut p);
+        hexv(ct, &mut c);
+        assert_eq!(encrypt(&k, n / 8, &p), c);
+        assert_eq!(decrypt(&k, n / 8, &c), p);
+    }
+
+    // Twofish paper, appendix "Test Vectors" (intermediate value tests, ecb_ival.txt)
+    #[test]
+    fn paper_vectors() {
+        kat("00000000000000000000000000000000", "00000000000000000000000000000000", "9F589F5CF6122C32B6BFEC2F2AE8C35A");
+        kat("0123456789ABCDEFFEDCBA98765432100011223344556677", "00000000000000000000000000000000", "CFD1D2E5A9BE9CDF501F13B892BD2248");
+        kat(
+            "0123456789ABCDEFFEDCBA987654321000112233445566778899AABBCCDDEEFF",
+            "00000000000000000000000000000000",
+            "37527BE0052334B89F0CFCCAE87CFA20",
+        );
+    }
+    // ecb_tbl.txt: the iterated table test (next key = previous plaintext || .., next plaintext = previous ciphertext),
+    // entries 1..5 and 48 for 128-bit keys
+    #[test]
+    fn table_test_128() {
+        let expect = [
+            (1, "9F589F5CF6122C32B6BFEC2F2AE8C35A"),
+            (2, "D491DB16E7B1C39E86CB086B789F5419"),
+            (3, "019F9809DE1711858FAAC3A3BA20FBC3"),
+            (4, "6363977DE839486297E661C6C9D668EB"),
+            (5, "816D5BD0FAE35342BF2A7412C246F752"),
+            (48, "6B459286F3FFD28D49F15B1581B08E42"),
+        ];
+        let mut key = [0u8; 32];
+        let mut plain = [0u8; 16];
+        for i in 1..50 {
+            let c = encrypt(&key, 2, &plain);
+            assert_eq!(decrypt(&key, 2, &c), plain);
+            for (n, h) in expect.iter() {
+                if *n == i {
+                    let mut e = [0u8; 16];
+                    hexv(h, &mut e);
+                    assert_eq!(c, e, "i = {}", i);
+                }
+            }
+            key[..16].copy_from_slice(&plain);
+            plain = c;
+        }
+    }
+    // expanded key words of the all-zero 128-bit key (paper, intermediate values)
+    #[test]
+    fn subkeys_zero_key() {
+        let kd = key_schedule(&[0u8; 32], 2);
+        assert_eq!(&kd.k[..8], &[0x52C54DDE, 0x11F0626D, 0x7CAC9D4A, 0x4D1B4AAA, 0xB7B83A10, 0x1E7D0BEB, 0xEE9C341F, 0xCFE14BE4]);
+        assert_eq!(kd.k[39], 0x696EA672);
+    }
+    // S-box key and first subkeys for the 256-bit key of the paper
+    #[test]
+    fn sboxkey_256() {
+        let mut k = [0u8; 32];
+        hexv("0123456789ABCDEFFEDCBA987654321000112233445566778899AABBCCDDEEFF", &mut k);
+        let kd = key_schedule(&k, 4);
+        // S_0 .. S_3 (kd.s is reversed)
+        assert_eq!(kd.s[3], [0xf2, 0xf6, 0x9f, 0xb8]);
+        assert_eq!(kd.s[2], [0x4b, 0xbc, 0x55, 0xb2]);
+        assert_eq!(kd.s[1], [0x61, 0x10, 0x66, 0x45]);
+        assert_eq!(kd.s[0], [0xf7, 0x47, 0x44, 0x8e]);
+        assert_eq!(&kd.k[..4], &[0x5EC769BF, 0x44D13C60, 0x76CD39B1, 0x16750474]);
+    }
+    #[test]
+    fn q_are_permutations_gf_sane() {
+        for i in 0..2 {
+            let mut seen = [false; 256];
+            for x in 0..256 { seen[Q[i][x] as usize] = true; }
+            assert!(seen.iter().all(|b| *b));
+        }
+        // x * x^7 = x^8 = x^6+x^5+x^3+1 mod v(x)
+        assert_eq!(gf_mul(2, 0x80, MDS_POLY), 0x69);
+        assert_eq!(gf_mul(2, 0x80, RS_POLY), 0x4d);
+        assert_eq!(gf_mul(0x53, 1, MDS_POLY), 0x53);
+        // mds of a unit vector is a column
+        assert_eq!(mds([1, 0, 0, 0]), u32::from_le_bytes([0x01, 0x5B, 0xEF, 0xEF]));
+        assert_eq!(mds([0, 0, 3, 0]), mds_column(3, 2));
+    }
+}
